@@ -14,7 +14,8 @@ LEVEL_TEXT = ("static: decides the structural preconditions of the round trip fo
               "offsets a 14-bit pointer can hold are remembered; (NARROW/TOTAL) no length or count is narrowed onto the wire without a dominating bound and no "
               "success return produces more than 65535 bytes; (ATOMIC) a failed write leaves the caller's buffer as it was; (ERR) no failure of a "
               "primitive is turned into success inside the codec; (ONEWRITER) only the framed writer appends to a connection's out buffer and the legacy "
-              "builders/adapters serialise through the one writer. Does NOT decide byte-level equality of write(parse(x)) for all x.")
+              "builders/adapters serialise through the one writer. Does NOT decide byte-level equality of write(parse(x)) for all x."
+              " Also decides (LIMIT) that the parse path fails on magnitudes only at frozen protocol limits, (PURE) that numeric wire fields reach the record unmodified, (VALID) that the writer refuses character-strings the parser rejects, (RCODE) that header values are not substituted (one known finding).")
 LEVEL_NOTE = "trusts clang CFG + extractor; equality of re-parsed field values for all inputs needs execution and is outside this family"
 DESIGN_REF = "DESIGN.md §6/C03"
 EXPLANATION = LEVEL_TEXT
